@@ -239,6 +239,16 @@ class Problem:
             self.fit.add_parameter_constraint(self.par_names[idx], v, u, relative=rel)
             self.constraints.append(dict(kind=kind, idx=[idx], val=[v], unc=u, rel=rel))
         else:
+            # parameters the constraint refers to, in the order given to the API (default: first two, in signature order;
+            # '-rev': reversed; '-last': last and first, i.e. non-adjacent and out of order for 3-parameter models)
+            base_kind = kind
+            idx = [0, 1]
+            if kind.endswith("-rev"):
+                base_kind, idx = kind[:-4], [1, 0]
+            elif kind.endswith("-last"):
+                base_kind, idx = kind[:-5], [len(self.par_names) - 1, 0]
+            kind = base_kind
+            names = [self.par_names[i] for i in idx]
             v = cx.reals(P + "_v", 2)
             rel = kind.endswith("rel")
             if rel:
@@ -246,7 +256,7 @@ class Problem:
                     cx.assume(t != 0)
             if "cov" in kind:
                 m = symm(cx, P + "_m", 2)
-                self.fit.add_matrix_parameter_constraint(list(self.par_names[:2]), list(v), [list(r) for r in m], matrix_type="cov", relative=rel)
+                self.fit.add_matrix_parameter_constraint(names, list(v), [list(r) for r in m], matrix_type="cov", relative=rel)
                 cov = [[m[i][j] * (v[i] * v[j] if rel else 1) for j in range(2)] for i in range(2)]
             else:
                 c = cx.real(P + "_c")
@@ -256,12 +266,12 @@ class Problem:
                 for t in u:
                     cx.assume(t > 0)
                 cm = [[1.0, c], [c, 1.0]]
-                self.fit.add_matrix_parameter_constraint(list(self.par_names[:2]), list(v), cm, matrix_type="cor", uncertainties=list(u), relative=rel)
+                self.fit.add_matrix_parameter_constraint(names, list(v), cm, matrix_type="cor", uncertainties=list(u), relative=rel)
                 ua = [u[i] * v[i] for i in range(2)] if rel else list(u)
                 cov = [[cm[i][j] * ua[i] * ua[j] for j in range(2)] for i in range(2)]
             for mn in O.leading_minors(cov):
                 cx.assume(mn > 0)
-            self.constraints.append(dict(kind=kind, idx=[0, 1], val=v, cov=cov))
+            self.constraints.append(dict(kind=kind, idx=idx, val=v, cov=cov))
 
     def constraint_cost(self, p=None):
         p = self.p if p is None else p
